@@ -183,7 +183,7 @@ def match_known(prop, sig, detail):
             continue
         where = k.get("where", {})
         d = detail if isinstance(detail, dict) else {}
-        if all(d.get(a) == b for a, b in where.items()):
+        if all((d.get(a) in b) if isinstance(b, list) else (d.get(a) == b) for a, b in where.items()):
             return k
     return None
 
@@ -233,7 +233,7 @@ def execute_isolated(mod, spec, timeout=120, keep_log=0):
         try:
             import faulthandler
 
-            faulthandler.enable()
+            faulthandler.disable()  # the parent reports the signal; no traceback noise on stderr
             signal.alarm(int(timeout) + 5)
             try:
                 res = execute_guarded(mod, spec, keep_log=keep_log)
